@@ -41,6 +41,29 @@ theorem trunc_incCount (c : Cfg) (k : Comp) (n : Nat) (b : Bytes) :
 @[simp] theorem incCount_index (c : Cfg) (k : Comp) (b : Bytes) : (b.incCount c k).index = b.index :=
   (incCount_spec c k b).2
 
+/-- `for _ in 0..n { iter.increment_count() }` (the counted multi-digit block of `try_parse_8digits`) -/
+def incFold (c : Cfg) (k : Comp) (l : List Nat) (b : Bytes) : Bytes := l.foldl (fun b _ => b.incCount c k) b
+
+theorem incFold_spec (c : Cfg) (k : Comp) : ∀ (l : List Nat) (b : Bytes),
+    (incFold c k l b).slc = b.slc ∧ (incFold c k l b).index = b.index ∧
+    ∀ n, trunc n (incFold c k l b) = incFold c k l (trunc n b) := by
+  intro l
+  induction l with
+  | nil => intro b; exact ⟨rfl, rfl, fun _ => rfl⟩
+  | cons x xs ih =>
+    intro b
+    obtain ⟨h1, h2, h3⟩ := ih (b.incCount c k)
+    simp only [incFold, List.foldl_cons] at h1 h2 h3 ⊢
+    refine ⟨by rw [h1, incCount_slc], by rw [h2, incCount_index], fun n => ?_⟩
+    rw [h3 n, trunc_incCount]
+
+@[simp] theorem incFold_slc (c : Cfg) (k : Comp) (l : List Nat) (b : Bytes) : (incFold c k l b).slc = b.slc :=
+  (incFold_spec c k l b).1
+@[simp] theorem incFold_index (c : Cfg) (k : Comp) (l : List Nat) (b : Bytes) : (incFold c k l b).index = b.index :=
+  (incFold_spec c k l b).2.1
+theorem trunc_incFold (c : Cfg) (k : Comp) (l : List Nat) (n : Nat) (b : Bytes) :
+    trunc n (incFold c k l b) = incFold c k l (trunc n b) := (incFold_spec c k l b).2.2 n
+
 theorem take_get_lt (l : List Nat) (n i : Nat) (h : i < n) : (l.take n)[i]? = l[i]? := by
   rw [List.getElem?_take]; simp [h]
 theorem take_get_ge (l : List Nat) (n i : Nat) (h : n ≤ i) : (l.take n)[i]? = none := by
@@ -194,14 +217,15 @@ theorem tryParse8_g (k : Comp) (b : Bytes) :
     tryParse8 c k b =
       if c.iterContiguous k = true ∧ b.slc.length - b.index ≥ 8 ∧ b.index ≤ b.slc.length then
         (if is8Digits c.mantissaRadix ((b.slc.drop b.index).take 8) then
-          .ok (some (val8Digits c.mantissaRadix ((b.slc.drop b.index).take 8)), Bytes.at b (b.index + 8))
+          .ok (some (val8Digits c.mantissaRadix ((b.slc.drop b.index).take 8)),
+            incFold c k (List.range 8) (Bytes.at b (b.index + 8)))
          else .ok (none, b))
       else .ok (none, b) := by
   by_cases hcnd : c.iterContiguous k = true ∧ b.slc.length - b.index ≥ 8 ∧ b.index ≤ b.slc.length
   · rw [if_pos hcnd]
     simp only [tryParse8, peekBytes, hc.hd, stepBy_g hc hb, hcnd, Bool.false_and, Bool.false_eq_true,
       if_false, Bool.true_and, Bool.and_eq_true, decide_eq_true_eq, and_self, if_true, bind, Except.bind, pure,
-      Except.pure]
+      Except.pure, incFold]
   · rw [if_neg hcnd]
     have : (c.iterContiguous k && decide (b.slc.length - b.index ≥ 8) && decide (b.index ≤ b.slc.length)) = false := by
       cases hk : c.iterContiguous k
@@ -241,9 +265,9 @@ theorem tryParse8_trunc (k : Comp) : TruncOK (tryParse8 c k) := by
     · next h8 =>
       simp only [Except.ok.injEq, Prod.mk.injEq] at h
       obtain ⟨rfl, rfl⟩ := h
-      refine ⟨rfl, by simp, by simp only [Bytes.Valid, at_index, at_slc]; omega, ?_⟩
+      refine ⟨by simp, by simp, by simp only [Bytes.Valid, incFold_index, incFold_slc, at_index, at_slc]; omega, ?_⟩
       intro n hn
-      simp only [at_index] at hn
+      simp only [incFold_index, at_index] at hn
       rw [tryParse8_g hc hb]
       have hc2 : c.iterContiguous k = true ∧ (trunc n b).slc.length - (trunc n b).index ≥ 8 ∧
           (trunc n b).index ≤ (trunc n b).slc.length := by
@@ -252,7 +276,7 @@ theorem tryParse8_trunc (k : Comp) : TruncOK (tryParse8 c k) := by
       rw [if_pos hc2]
       rw [show List.take 8 (List.drop (trunc n b).index (trunc n b).slc) = List.take 8 (List.drop b.index b.slc)
         from take8_trunc _ _ _ hn]
-      rw [if_pos h8]
+      rw [if_pos h8, trunc_incFold]
       rfl
     · next h8 =>
       simp only [Except.ok.injEq, Prod.mk.injEq] at h
